@@ -2,6 +2,7 @@ import GModel.Basic
 import GModel.Ops
 import GModel.Pipeline
 import GModel.RdfNames
+import GModel.Fft
 /-! line-protocol operation: the whole per-atom chain (C07) -/
 namespace G.Ops10
 open G G.Ops G.Pipeline
@@ -23,5 +24,11 @@ def opRdfNames : Rd String := do
   let codes := (tbl.map (·.1)).eraseDups
   pure ("ok " ++ " ".intercalate (codes.map (fun c => s!"{c} {(RdfNames.lookup tbl c).getD "?"}")))
 
-def table : List (String × Rd String) := [("pipe", opPipe), ("rdfnames", opRdfNames)]
+/-- `cacorr pad n xs…` → cyclic autocorrelation of `xs` zero-padded / truncated to `pad`, lags 0..n−1 -/
+def opCAcorr : Rd String := do
+  let pad ← rdNat
+  let xs ← rdList rdRat
+  pure ("ok " ++ showRats ((List.range xs.length).map (Fft.cyclicAcorr xs pad)))
+
+def table : List (String × Rd String) := [("pipe", opPipe), ("rdfnames", opRdfNames), ("cacorr", opCAcorr)]
 end G.Ops10
